@@ -101,6 +101,7 @@ class Wsdl11(XmlSchema):
         self.xsl_href = xsl_href
 
         self.port_type_dict = {}
+        self.binding_dict = {}
         self.service_elt_dict = {}
 
         self.root_elt = None
@@ -126,6 +127,30 @@ class Wsdl11(XmlSchema):
             pt = self.port_type_dict[pt_name]
 
         return pt
+
+    def _get_or_create_binding(self, root, binding_name, port_type_name):
+        """Creates a wsdl:binding element. Services that share a port type
+        share its binding as well, the way they share the wsdl:portType."""
+
+        binding = self.binding_dict.get(binding_name, None)
+
+        if binding is None:
+            pref_tns = self.interface.get_namespace_prefix(
+                                                       self.interface.get_tns())
+            input_binding_ns = ns.get_binding_ns(
+                                            self.interface.app.in_protocol.type)
+
+            binding = SubElement(root, WSDL11("binding"))
+            binding.set('name', binding_name)
+            binding.set('type', '%s:%s'% (pref_tns, port_type_name))
+
+            transport = SubElement(binding, input_binding_ns("binding"))
+            transport.set('style', 'document')
+            transport.set('transport', self.interface.app.transport)
+
+            self.binding_dict[binding_name] = binding
+
+        return binding
 
     def _get_or_create_service_node(self, service_name):
         """Builds a wsdl:service element."""
@@ -499,13 +524,8 @@ class Wsdl11(XmlSchema):
             for port_type_name in port_type_list:
 
                 # create binding nodes
-                binding = SubElement(root, WSDL11("binding"))
-                binding.set('name', self._get_binding_name(port_type_name))
-                binding.set('type', '%s:%s'% (pref_tns, port_type_name))
-
-                transport = SubElement(binding, input_binding_ns("binding"))
-                transport.set('style', 'document')
-                transport.set('transport', self.interface.app.transport)
+                binding = self._get_or_create_binding(root,
+                       self._get_binding_name(port_type_name), port_type_name)
 
                 for m in service.public_methods.values():
                     if m.port_type == port_type_name:
@@ -514,13 +534,8 @@ class Wsdl11(XmlSchema):
         else:
             # here is the default port.
             if cb_binding is None:
-                cb_binding = SubElement(root, WSDL11("binding"))
-                cb_binding.set('name', service_name)
-                cb_binding.set('type', '%s:%s'% (pref_tns, service_name))
-
-                transport = SubElement(cb_binding, input_binding_ns("binding"))
-                transport.set('style', 'document')
-                transport.set('transport', self.interface.app.transport)
+                cb_binding = self._get_or_create_binding(root, service_name,
+                                                                   service_name)
 
             for m in service.public_methods.values():
                 inner(m, cb_binding)
